@@ -50,6 +50,17 @@ C = {
  "C11": ("every refused user action (any exception type, any validation step, after any number of sub-edits) leaves graph, "
          "attributes, segmentation (once the caller restored the painted pixels), lookups, maxima, history, registry "
          "unchanged and emits nothing", "Bound: 3-4 node slots; paint driver with 3 slots on 2x1x2."),
+ "C12": ("real import_from_geff / tracks_from_df pipelines (name-map preprocessing and validation, renaming, multi-column "
+         "combination in mapped order, structural validation with the real geff validators, real geff.construct, real "
+         "SolutionTracks constructor): nodes = source ids (non-integer ids renumbered one-to-one), edges = source links, "
+         "time / position / every mapped property equal the source cells for ARBITRARY cell values; duplicate ids, links "
+         "to unknown nodes, self links, missing required mappings -> ValueError",
+         "Bound: 2-4 rows with concrete non-contiguous ids per run, <=2 explicit links (GEFF) / every parent assignment "
+         "(CSV) over row ids + one unknown id + the 'no parent' codes; column names and key mappings from a fixed list of "
+         "configurations (renamed, legacy y/x keys, 3D, stacked position, swapped axes, sparse properties, edge "
+         "property). The store reader (geff read_to_memory) is an I/O stub and the DataFrame a cell-wise model checked "
+         "against real pandas by the self-test: CSV text parsing, zarr decoding and pandas dtype inference are outside "
+         "the claim. No segmentation (C13), no track-id columns (C14)."),
  "C13": ("real relabel_segmentation and TracksBuilder.handle_segmentation: every output cell = node id (+1 shift if id 0 "
          "exists) of the node with (time, seg id) = (frame, input label), else 0, for ARBITRARY integer cell labels; "
          "graph shifts with the array; input untouched",
@@ -89,10 +100,7 @@ for pid, (text, note) in C.items():
                                 "every feasible path within the stated bound; solver counterexamples replayed on the "
                                 "unmodified stack. Claim: " + text),
         level_note=BASE_NOTE + note, technique=TECH))
-na = [dict(property_id="C12", reason="the importer is pandas/geff/zarr from the first line to geff.construct: there is no "
-           "span of funtracks' own logic between source table and graph to encode; symbolic values reaching those "
-           "libraries would only be concretised, i.e. enumeration of concrete runs, not a solver verdict (DESIGN 6)"),
-      dict(property_id="C14", reason="composition of two file formats through pandas CSV text, zarr/geff stores and "
+na = [dict(property_id="C14", reason="composition of two file formats through pandas CSV text, zarr/geff stores and "
            "json/np.save: the property IS the behaviour of those libraries' writers and readers paired with each other; "
            "the pure-Python fragments would not decide it (DESIGN 6)")]
 m = dict(version=1, setup_cmd="./bootstrap.sh && ./check selftest",
